@@ -218,7 +218,9 @@ type placement struct {
 	Value        string `json:"value"`
 	Kind         string `json:"kind"`
 	Class        string `json:"class"`
-	For          int    `json:"for_position"` // chain position the item was generated for (-1: none)
+	// Size: the value is padded to just above that size ("" = as short as the kind allows; see sizes)
+	Size string `json:"size,omitempty"`
+	For  int    `json:"for_position"` // chain position the item was generated for (-1: none)
 }
 
 type lreq struct {
@@ -237,7 +239,11 @@ func (r lreq) shapeKey() string {
 		if it.Sep != "" {
 			sep = fmt.Sprintf("sep%q", it.Sep)
 		}
-		p = append(p, fmt.Sprintf("%s[%s%s]=%s-%s@%d", it.Slot, it.Scheme, sep, it.Kind, it.Class, it.For))
+		size := ""
+		if it.Size != "" {
+			size = "+" + it.Size
+		}
+		p = append(p, fmt.Sprintf("%s[%s%s]=%s-%s%s@%d", it.Slot, it.Scheme, sep, it.Kind, it.Class, size, it.For))
 	}
 	k := r.Recipe + "{" + strings.Join(p, ",") + "}"
 	if r.BodyEnc != "" || r.CT != "" {
@@ -363,6 +369,15 @@ type stepView struct {
 	Sub     string  `json:"subject,omitempty"`
 	Seen    string  `json:"seen"` // what the authenticator sees: "absent" | "other-scheme" | "<kind>-<class>"
 	Slot    string  `json:"slot,omitempty"`
+	Size    string  `json:"size,omitempty"` // size class of the value it sees ("" = short)
+}
+
+// what: Seen and the size class of the value (part of violation signatures).
+func (v stepView) what() string {
+	if v.Size != "" {
+		return v.Seen + "+" + v.Size
+	}
+	return v.Seen
 }
 
 // extract follows the documentation of "Authentication Data Source": strategies in order, a later one
@@ -416,7 +431,7 @@ func classify(e elem, r lreq) stepView {
 		}
 		return stepView{Verdict: vNone, Seen: "absent"}
 	}
-	sv := stepView{Seen: seenName(it.Kind, it.Class), Slot: it.Slot}
+	sv := stepView{Seen: seenName(it.Kind, it.Class), Slot: it.Slot, Size: it.Size}
 	if raw == "" { // whitespace only value
 		sv.Verdict = vAmbig
 		return sv
